@@ -28,6 +28,9 @@ def cases(tier, rng):
                 if n < 0:
                     continue
                 ps.append({"x": "tw", "n": n, "ncls": "int", "wells": wells, "present": present, "len": ln})
+        # results are fresh lists: editing one must not influence a later call with equal arguments
+        for n in (1, ln, 2 * ln + 1):
+            ps.append({"x": "tw", "n": n, "ncls": "int", "wells": shapes[0][0], "present": "list", "len": ln, "mutate": True})
         # rejected: negative and non-integer n
         ps.append({"x": "tw", "n": -1, "ncls": "int", "wells": shapes[0][0], "present": "list", "len": ln})
         ps.append({"x": "tw", "n": -rng.randint(2, 50), "ncls": "int", "wells": shapes[0][0], "present": "list", "len": ln})
